@@ -698,16 +698,18 @@ def removedApportionmentImpl (part : Sem) : Sem := fun a => do
          prev := some (a.prev.getD (.dict [])), max := some (a.max.getD (.dict [])) }
 
 /-- `{constituency: cg[party] for constituency, cg in gains.items() if party in cg}` -/
+def columnEntry (party : Key) (p : Key × V) : Except Err (Option (Key × V)) := do
+  let b ← keyIn party p.2
+  if b then do
+    let cg ← p.2.items
+    match D.get? cg party with
+    | some x => pure (some (p.1, x))
+    | Option.none => throw eKey
+  else pure Option.none
+
 def partyColumn (gains : V) (party : Key) : Except Err V := do
   let g ← gains.items
-  let r ← g.filterMapM (fun p => do
-    let b ← keyIn party p.2
-    if b then do
-      let cg ← p.2.items
-      match D.get? cg party with
-      | some x => pure (some (p.1, x))
-      | Option.none => throw eKey
-    else pure Option.none)
+  let r ← g.filterMapM (columnEntry party)
   pure (.dict r)
 
 /-- `results[constituency][party] = cseats` on a defaultdict(dict) -/
